@@ -23,7 +23,7 @@ def plan(tier, seed):
         groups.append(KGroup("R", [H(n, "radix writer", "all values") for n in rad], timeout=3600, jobs=14, mem_gb=10, label="radix"))
         groups.append(KGroup("C", w1 + w2q, timeout=3600, jobs=8, mem_gb=10, label="compact"))
         groups.append(KGroup("CRF", [H(n, "compact radix writer", "all values") for n in rad[:13]] + [H("c03::fmt::w4_u8_plus", "required + sign", "all values"), H("c03::fmt::w4_i8_plus", "", "all values"), H("c03::fmt::w4_i16_plus", "", "all values")], timeout=3600, jobs=14, mem_gb=10, label="compact+radix+format"))
-        kernels = ["jeaiii_u8", "jeaiii_u16", "jeaiii_u32", "jeaiii_u64", "jeaiii_i64"]
+        kernels = ["jeaiii_u8", "jeaiii_u16", "jeaiii_u32"]
     return {
         "kani": groups,
         "smt": {"features": (), "kernels": kernels},
@@ -32,6 +32,6 @@ def plan(tier, seed):
         "bounds": ["Engine S: every value of u8/u16/u32 through the decimal jeaiii kernels (digit-pair table abstracted arithmetically after an entry-by-entry check)",
                    "Kani: every value of u8/i8/u16/i16 through the public API, decimal and sampled (quick)/all (thorough) radices; compact writer",
                    "Kani cubes for 32/64/128-bit types: +-300 around powers of ten, 0, MIN, MAX"],
-        "outside_claim": ["non-decimal radices for 32/64/128-bit types", "64/128-bit decimal values outside the Kani cubes until the Engine S u64/u128 kernels finish (thorough tier attempts u64)"],
+        "outside_claim": ["non-decimal radices for 32/64/128-bit types", "64/128-bit decimal values outside the Kani cubes (the single-query Engine S u64/u128 kernels time out; block-wise lemmas were not built)"],
         "assumptions": ["canonical numerals are unique, so the oracle (digits, no leading zero, Horner value) is equality with Display for radix 10"],
     }
